@@ -195,6 +195,16 @@ class C14(Prop):
             c.append([threads, inmem, 0])
             yield sx(c), ["spill", "pass=%d" % (c[0] + 1), "chroms=%d" % len(c[2]), "threads=%d" % threads, "inmemory=%d" % inmem]
 
+        # two-pass writing whose FIRST zoom level is larger than the destination's 8 KiB buffer per chromosome: in the
+        # second pass those records are written straight into the destination by the per-chromosome zoom tasks,
+        # so a failing destination write can land inside such a task (its error must reach the caller)
+        for i in range(6 if tier == "quick" else 60):
+            c = self.spill_case(rng)
+            c[0] = 1; c[1][5] = [[10, 300]]; c[1][1] = rng.choice([64, 1024])
+            threads = rng.choice([4, 4, 8, 2]); inmem = rng.choice([0, 0, 1])
+            c.append([threads, inmem, 0])
+            yield sx(c), ["spill", "zoom-spill", "pass=2", "chroms=%d" % len(c[2]), "threads=%d" % threads, "inmemory=%d" % inmem]
+
     def nontrivial(self, case, tags):
         return not any(t.startswith("bad-") for t in tags) and case.count("(") > 14
 
